@@ -168,6 +168,8 @@ def parseOp (ws : List String) : Option Act :=
   | ["pfail", cl] => do pure (.ev (.persistFail (← b? cl)) fun _ => none)
   | ["ackobs", c] => do pure (.ev (.ackObs (← c.toNat?)) fun _ => none)
   | ["nackobs", _] => some .note
+  | ["blocked", _] => some .note      -- closerace: the Batch call did not return within its bound: NOT an acknowledgement
+  | ["closehung"] => some (.bad "bad:close-did-not-return")
   | ["rmsnap", e, ok] => do pure (.ev (.cleanupRemoveSnap (← e.toNat?) (← b? ok)) fun _ => none)
   | ["rmseg", sid, ok, _] => do pure (.ev (.cleanupRemoveSeg (← sid.toNat?) (← b? ok)) fun _ => none)
   | ["ropen", rid, k, segs] => do pure (.ev (.readerOpen (← rid.toNat?) (← k.toNat?) (← parseList segs)) fun _ => none)
@@ -231,12 +233,16 @@ def stepLine (d : DState) (op impl : String) : DState × String :=
       let loads := match parts.find? (·.startsWith "handles=") with
         | some w => ((w.drop 8).toString.splitOn "/").headD "0"
         | none => "0"
-      let m := s!"acked={showList (sortDedup d.s.acked)} handles={loads}/{loads}/0"
       let implHandles := (parts.find? (·.startsWith "handles=")).getD ""
+      -- callers that never returned pin a root snapshot (prepareSegment's deferred root.Close()): no balance to check
+      let blocked := (parts.find? (·.startsWith "blocked=")).getD ""
+      let m := if blocked == "" then s!"acked={showList (sortDedup d.s.acked)} handles={loads}/{loads}/0"
+               else s!"acked={showList (sortDedup d.s.acked)} {implHandles} {blocked}"
       if re != "reopened" then (d, answer m "bad:lock-not-released" ["final"])
-      else if implHandles != s!"handles={loads}/{loads}/0" then
+      else if blocked == "" && implHandles != s!"handles={loads}/{loads}/0" then
         (d, answer m "bad:handles-not-released-exactly-once" ["final"])
-      else (d, answer (if d.sync then m else impl) (if d.sync then "ok" else "na") ["final"])
+      else (d, answer (if d.sync then m else impl) (if d.sync then "ok" else "na")
+              ["final", if blocked == "" then "final-handles-balanced" else "final-with-blocked-callers"])
   | "opened" :: cs :: _ =>
       let l := parseListing impl
       let d := match parseList cs with | some c => { d with commits := c } | none => d
